@@ -71,7 +71,8 @@ def jobs(tier):
     add(N + 'nb_pool_merge', dict(d=1, pool=2, unroll=3, open_uniform=True),
         block=B, max_paths=6000)
     if thorough:
-        add(U + 'sample', dict(d=2, npm=3, sizes=[3, 3, 3], n=2, cache=1))
+        add(U + 'sample', dict(d=2, npm=3, sizes=[3, 3], n=2, cache=1),
+            block=1, max_paths=20000)
         add(U + 'sample', dict(d=1, npm=2, sizes=[2, 2], n=2), block=2,
             max_paths=30000)
         add(N + 'nb_pool_merge', dict(d=1, pool=3, unroll=4,
